@@ -395,6 +395,9 @@ func (st *tunnelServerStream) setHeader(md metadata.MD, send bool) error {
 	if st.sentHeaders {
 		return errors.New("already sent headers")
 	}
+	if err := validateMetadata(md); err != nil {
+		return err
+	}
 	if md != nil {
 		st.headers = metadata.Join(st.headers, md)
 	}
@@ -445,6 +448,9 @@ func (st *tunnelServerStream) setTrailer(md metadata.MD) error {
 
 	if st.closed {
 		return errors.New("already finished")
+	}
+	if err := validateMetadata(md); err != nil {
+		return err
 	}
 	st.trailers = metadata.Join(st.trailers, md)
 	return nil
